@@ -377,10 +377,27 @@ func checkC10(p *core.Program, r *core.Report) {
 	// O10.6: the decoder refuses a coordinate exactly when it is negative or wider than 32 bytes. A sign test must be
 	// there (FillBytes and BitLen use the absolute value: "-0x…" would decode to the original proof) and must be strict
 	// (zero is a coordinate of the point at infinity); the width test must be BitLen() > 256.
-	checkProofRangeTests(p, r, dec, dname)
+	// (the decoding may be split into the method and unexported helpers of the same type: fromJSON, packProofWords)
+	decFns := []*ssa.Function{dec}
+	{
+		seen := map[*ssa.Function]bool{dec: true}
+		for i := 0; i < len(decFns) && i < 8; i++ {
+			for _, b := range decFns[i].Blocks {
+				for _, in := range b.Instrs {
+					if c, ok := in.(*ssa.Call); ok {
+						if sc := c.Common().StaticCallee(); sc != nil && !seen[sc] && len(sc.Blocks) > 0 && sc.Pkg == dec.Pkg && sc.Name() != "fromHex" {
+							seen[sc] = true
+							decFns = append(decFns, sc)
+						}
+					}
+				}
+			}
+		}
+	}
+	checkProofRangeTests(p, r, decFns, dname)
 	// O10.7: the proof object the bytes are read into is created by this call, unconditionally: decoding in place into
 	// whatever the receiver already holds rewrites every earlier copy of that Proof value
-	checkFreshProofObject(p, r, dec, dname)
+	checkFreshProofObject(p, r, decFns, dname)
 	// O10.4 errors
 	ix := indexFuncs(p)
 	if obj, ok := dec.Object().(*types.Func); ok {
@@ -485,10 +502,15 @@ func isFreshBuffer(t *tf.Term) bool {
 	return ok
 }
 
-func checkProofRangeTests(p *core.Program, r *core.Report, dec *ssa.Function, dname string) {
+func checkProofRangeTests(p *core.Program, r *core.Report, decFns []*ssa.Function, dname string) {
 	var probs []string
 	nSign, nLen := 0, 0
-	for _, b := range dec.Blocks {
+	dec := decFns[0]
+	var blocks []*ssa.BasicBlock
+	for _, f := range decFns {
+		blocks = append(blocks, f.Blocks...)
+	}
+	for _, b := range blocks {
 		iff, ok := b.Instrs[len(b.Instrs)-1].(*ssa.If)
 		if !ok {
 			continue
@@ -549,12 +571,16 @@ func checkProofRangeTests(p *core.Program, r *core.Report, dec *ssa.Function, dn
 	r.Check(len(probs) == 0, "O10.6", dname+": range tests", p.Pos(dec.Pos()), fmt.Sprintf("%d sign test(s) for negative only, %d width test(s) BitLen() > 256", nSign, nLen), strings.Join(probs, "; "))
 }
 
-func checkFreshProofObject(p *core.Program, r *core.Report, dec *ssa.Function, dname string) {
+func checkFreshProofObject(p *core.Program, r *core.Report, decFns []*ssa.Function, dname string) {
 	var readFrom *ssa.Call
-	for _, b := range dec.Blocks {
-		for _, in := range b.Instrs {
-			if c, ok := in.(*ssa.Call); ok && c.Common().IsInvoke() && c.Common().Method.Name() == "ReadFrom" {
-				readFrom = c
+	dec := decFns[0]
+	for _, f := range decFns {
+		for _, b := range f.Blocks {
+			for _, in := range b.Instrs {
+				if c, ok := in.(*ssa.Call); ok && c.Common().IsInvoke() && c.Common().Method.Name() == "ReadFrom" {
+					readFrom = c
+					dec = f
+				}
 			}
 		}
 	}
